@@ -58,6 +58,8 @@ def parseOp (ws : List String) : Option RepOp :=
   | ["drop"] => some .drop
   | ["mode", m] => do some (.setMode (← parseMode m))
   | ["setrev", a] => do some (.setRev (← a.toNat?))
+  | ["setrb", "1"] => some (.setRb true)
+  | ["setrb", "0"] => some (.setRb false)
   | ["ckpt", s] => some (.setCkpt s)
   | ["rbbegin", n] => some (.rbBegin n false)
   | ["rbbegin", n, "real"] => some (.rbBegin n false)    -- the whole procedure run by sync.Task.AddReplica
